@@ -6,9 +6,9 @@
    key on every instance once both are quiescent.
    Non-vacuity: the hypotheses are those of C01_convergence (a reachable quiescent state with a reset on the way is
    exhibited by C01_reset_example in Props/C01.v) for two states, plus equality of the written sets, which holds
-   e.g. for the two delivery orders of the same writes (and trivially for s1 = s2, where the theorem is the
-   "identical on all instances" clause of C01_convergence). *)
+   for the two delivery orders of the same writes exhibited by C01_history_example below. *)
 From LS Require Import Base.Bytes Merge.Version Merge.Order Fleet.Model Fleet.Proofs Fleet.Determinism.
+From Coq Require Import Lia.
 Open Scope N_scope.
 
 Theorem C01_history_independent : forall (K : Type) (K_eq_dec : forall a b : K, {a = b} + {a <> b}) n1 n2 s1 s2,
@@ -18,3 +18,55 @@ Theorem C01_history_independent : forall (K : Type) (K_eq_dec : forall a b : K, 
   forall i j, (i < n1)%nat -> (j < n2)%nat -> st K s1 i k = st K s2 j k.
 Proof. exact history_independent. Qed.
 Print Assumptions C01_history_independent.
+
+(* non-vacuity: the same two crossing writes (equal timestamps), delivered in two different ways — A: both upload,
+   then merge crosswise; B: the other write order, instance 0 merges BEFORE it uploads, so its snapshot already
+   holds the join. Both final states are reachable and quiescent, the histories differ, the written sets agree *)
+Definition va := mkVer 5 false [97].
+Definition vb := mkVer 5 false [98].
+Example C01_history_example :
+  exists s1 s2, freach bool Bool.bool_dec (finit bool) s1 /\ quiescent bool 2 s1 /\
+                freach bool Bool.bool_dec (finit bool) s2 /\ quiescent bool 2 s2 /\
+                (forall k v, written_k bool s1 k v <-> written_k bool s2 k v) /\
+                map fst (snaps bool s1) <> map fst (snaps bool s2).
+Proof.
+  eexists. eexists. split; [|split; [|split; [|split; [|split]]]].
+  - eapply fr_step. eapply fr_step. eapply fr_step. eapply fr_step. eapply fr_step. eapply fr_step. apply fr_init.
+    + apply (f_write bool Bool.bool_dec _ 0%nat true vb). exact I.
+    + apply (f_write bool Bool.bool_dec _ 1%nat true va). exact I.
+    + apply (f_upload bool Bool.bool_dec _ 0%nat).
+    + apply (f_upload bool Bool.bool_dec _ 1%nat).
+    + eapply (f_merge bool Bool.bool_dec _ 0%nat). right. left. reflexivity.
+    + eapply (f_merge bool Bool.bool_dec _ 1%nat). left. reflexivity.
+  - split.
+    + cbn [written]. intros j k u [E|[E|[]]]; inversion E; subst; lia.
+    + intros i j Hi Hj.
+      assert (Hc : (i = 0 \/ i = 1)%nat) by lia. assert (Hd : (j = 0 \/ j = 1)%nat) by lia.
+      destruct Hd as [-> | ->].
+      * eexists. split; [left; reflexivity|]. split; [reflexivity|]. split.
+        -- cbn [written]. intros k u [E|[E|[]]]; inversion E; subst; vm_compute; left; reflexivity.
+        -- intros k. destruct Hc as [-> | ->]; destruct k; vm_compute; auto.
+      * eexists. split; [right; left; reflexivity|]. split; [reflexivity|]. split.
+        -- cbn [written]. intros k u [E|[E|[]]]; inversion E; subst; vm_compute; left; reflexivity.
+        -- intros k. destruct Hc as [-> | ->]; destruct k; vm_compute; auto.
+  - eapply fr_step. eapply fr_step. eapply fr_step. eapply fr_step. eapply fr_step. eapply fr_step. apply fr_init.
+    + apply (f_write bool Bool.bool_dec _ 1%nat true va). exact I.
+    + apply (f_write bool Bool.bool_dec _ 0%nat true vb). exact I.
+    + apply (f_upload bool Bool.bool_dec _ 1%nat).
+    + eapply (f_merge bool Bool.bool_dec _ 0%nat). left. reflexivity.
+    + apply (f_upload bool Bool.bool_dec _ 0%nat).
+    + eapply (f_merge bool Bool.bool_dec _ 1%nat). right. left. reflexivity.
+  - split.
+    + cbn [written]. intros j k u [E|[E|[]]]; inversion E; subst; lia.
+    + intros i j Hi Hj.
+      assert (Hc : (i = 0 \/ i = 1)%nat) by lia. assert (Hd : (j = 0 \/ j = 1)%nat) by lia.
+      destruct Hd as [-> | ->].
+      * eexists. split; [right; left; reflexivity|]. split; [reflexivity|]. split.
+        -- cbn [written]. intros k u [E|[E|[]]]; inversion E; subst; vm_compute; auto.
+        -- intros k. destruct Hc as [-> | ->]; destruct k; vm_compute; auto.
+      * eexists. split; [left; reflexivity|]. split; [reflexivity|]. split.
+        -- cbn [written]. intros k u [E|[E|[]]]; inversion E; subst; vm_compute; left; reflexivity.
+        -- intros k. destruct Hc as [-> | ->]; destruct k; vm_compute; auto.
+  - intros k v. unfold written_k. cbn [written]. split; intros [i [E|[E|[]]]]; inversion E; subst; eexists; cbn; eauto.
+  - cbn. discriminate.
+Qed.
